@@ -1611,6 +1611,8 @@ pub fn run(args: &Args, out: &mut Out) {
                 sem::run_request(&line, out, &mut hist);
             } else if line.starts_with("C02.vfn\t") {
                 vec::run_request(&line, out, &mut hist);
+            } else if line.starts_with("C02.vex\t") {
+                vec::run_vex_request(&line, out, &mut hist);
             }
         }
         out.stat(&format!("{{\"mode\":\"replay\",\"hist\":{}}}", hist.json()));
@@ -1653,5 +1655,7 @@ pub fn run(args: &Args, out: &mut Out) {
     sem::run_stream(args, out, &mut hist);
     // vector / matrix / struct / array / enum programs through the real exporter (C02.vfn)
     vec::run_stream(args, out, &mut hist);
+    // expression functions of the Lean vector layer (C02.vex): model tree / values compared, oracle as above
+    vec::run_vex_stream(args, out, &mut hist);
     out.stat(&format!("{{\"programs\":{},\"hist\":{}}}", n, hist.json()));
 }
